@@ -163,7 +163,7 @@ func TestC06(t *testing.T) {
 			neighbourOfAFailedRecord(t, r, dir, i)
 		}
 	}
-	r.Require("overlapping_identical_gets", "records_beside_a_failed_one", "calls_with_one_record", "calls_with_no_record", "denied_calls_recorded", "unchanged_conditional_gets", "write_failures_injected", "sync_failures_injected",
+	r.Require("server_level_same_address_other_caller", "overlapping_identical_gets", "records_beside_a_failed_one", "calls_with_one_record", "calls_with_no_record", "denied_calls_recorded", "unchanged_conditional_gets", "write_failures_injected", "sync_failures_injected",
 		"mutations_logged_before_effect", "concurrent_lines", "concurrent_durability_checks", "server_level_denials", "server_level_entitled_calls", "audit_file_reopens", "calls_after_a_torn_record", "refusals_in_bursts", "versions_accounted_for")
 	r.Rule("sequential: seeded histories of ~30 calls (all 9 operations, callers with random rule sets incl. none, names incl. empty and reserved); per call the records captured between invocation and return are compared with the expectation table; in a third of the histories the sink fails the Write or the Sync of one chosen record. Concurrent: 16 goroutines x mixed calls with unique (user, secret) pairs on a real audit file; every line must parse and the multiset of records must equal the expected one. Distinct = (operation, authorised?, records expected, failure injected)")
 }
@@ -639,6 +639,49 @@ func serverLevel(t *testing.T, r *evid.Run, dir string) {
 			}
 		}
 	}
+	// one source address, answered differently by the tailnet from one request to the next (the node was
+	// re-authenticated by somebody else; a grant was revoked): every record names the caller of ITS request
+	const shared = "100.64.9.40:1"
+	seq := []struct {
+		who  httpdrv.Who
+		auth bool
+	}{
+		{httpdrv.Who{Login: "first@verif", Node: "shared-desk", Rules: all}, true},
+		{httpdrv.Who{Login: "second@verif", Node: "shared-desk", Rules: all}, true},
+		{httpdrv.Who{Login: "second@verif", Node: "shared-desk"}, false},
+		{httpdrv.Who{Login: "third@verif", Node: "shared-desk-renamed", Rules: []refmodel.Rule{{Actions: []string{"info"}, Patterns: []string{"*"}}}}, false},
+		{httpdrv.Who{Login: "first@verif", Node: "shared-desk", Rules: all}, true},
+	}
+	d.Put(realdb.Super(), "desk", []byte("v"))
+	for round := 0; round < 3; round++ {
+		for si, sq := range seq {
+			srv.SetWho(shared, sq.who)
+			op := []ops.Op{{Kind: ops.Get, Name: "desk"}, {Kind: ops.GetVer, Name: "desk", Version: 1}, {Kind: ops.Put, Name: "desk", Value: []byte(fmt.Sprint("w", round, si))}}[(round+si)%3]
+			r.Eval(1)
+			mk := snk.mark()
+			res, rep, _ := srv.Do(shared, op)
+			recs := snk.since(mk)
+			r.Count("server_level_same_address_other_caller", 1)
+			if sq.auth != (res.Class == refmodel.OK) {
+				r.Violation("server-level-decision-wrong", -1, fmt.Sprintf("address %s, now %s (rules %v): %s answered %d", shared, sq.who.Login, sq.who.Rules, op, rep.Status), nil)
+				return
+			}
+			ok := false
+			var got []string
+			for _, rc := range recs {
+				var e audit.Entry
+				got = append(got, string(rc.bytes))
+				if json.Unmarshal(rc.bytes, &e) == nil && e.Authorized == sq.auth && string(e.Action) == op.Kind.Action() && e.Secret == op.Name && namesCaller(e.Principal, sq.who, shared) {
+					ok = true
+				}
+			}
+			if !ok {
+				r.Violation("record-does-not-name-the-caller", -1, fmt.Sprintf("address %s is %s on node %s for this request (the tailnet's answer changed since the previous one): %s (entitled=%t) has no record naming this caller; records: %q", shared, sq.who.Login, sq.who.Node, op, sq.auth, got), nil)
+				return
+			}
+		}
+	}
+	r.Distinct("server-level: one address, changing caller")
 }
 
 // namesCaller: the record identifies the caller the way the tailnet does: node name and source IP, plus the
